@@ -31,6 +31,19 @@ type SW struct {
 	// value; the proof window of a file is the network parameter at post time)
 	ReqProofInterval int64
 	pgTick           int
+	// RollbackProb: probability that a plan purchase, post or delete travels in one transaction with a second message of
+	// the same signer that is bound to fail (a transfer of more than exists): the whole transaction is refused, the
+	// helpers report the failure, and nothing of the first message may remain.
+	RollbackProb float64
+}
+
+func (s *SW) deliver(i int, msg sdk.Msg) chain.TxResult {
+	if s.RollbackProb > 0 && s.rc.Chance(s.RollbackProb) {
+		huge, _ := sdk.NewIntFromString("1000000000000000000000000000000")
+		s.rc.Count("messages_in_a_transaction_that_rolls_back", 1)
+		return s.c.DeliverAs(i, msg, bankSend(s.acc(i).Addr, s.acc((i+1)%len(s.c.Accs)).Addr, sdk.NewCoins(sdk.NewCoin("ujkl", huge))))
+	}
+	return s.c.DeliverAs(i, msg)
 }
 
 // paging: a client paging through the storage listings this property is about sees what the one-shot listings show
@@ -177,7 +190,7 @@ func burned(p storagetypes.Providers) int64 {
 func (s *SW) acc(i int) chain.Acc { return s.c.Accs[i] }
 
 func (s *SW) BuyPlan(buyer, forAcc int, bytes, days int64, referral string) chain.TxResult {
-	return s.c.DeliverAs(buyer, &storagetypes.MsgBuyStorage{Creator: s.acc(buyer).Bech, ForAddress: s.acc(forAcc).Bech,
+	return s.deliver(buyer, &storagetypes.MsgBuyStorage{Creator: s.acc(buyer).Bech, ForAddress: s.acc(forAcc).Bech,
 		DurationDays: days, Bytes: bytes, PaymentDenom: "ujkl", Referral: referral})
 }
 
@@ -188,7 +201,7 @@ func (s *SW) PostFile(owner int, f *gen.File, maxProofs, expires, declaredSize i
 		size = declaredSize
 	}
 	netWindow := s.c.App.StorageKeeper.GetParams(s.c.Ctx()).ProofWindow
-	r := s.c.DeliverAs(owner, &storagetypes.MsgPostFile{Creator: s.acc(owner).Bech, Merkle: f.Root(), FileSize: size,
+	r := s.deliver(owner, &storagetypes.MsgPostFile{Creator: s.acc(owner).Bech, Merkle: f.Root(), FileSize: size,
 		ProofInterval: s.ReqProofInterval, ProofType: 0, MaxProofs: maxProofs, Expires: expires, Note: "{}"})
 	s.ReqProofInterval = 0
 	if !r.OK() {
@@ -263,7 +276,7 @@ func (s *SW) InitProvider(i int, ip string) chain.TxResult {
 }
 
 func (s *SW) DeleteFile(i int, w *WFile) chain.TxResult {
-	return s.c.DeliverAs(i, &storagetypes.MsgDeleteFile{Creator: s.acc(i).Bech, Merkle: w.F.Root(), Start: w.Start})
+	return s.deliver(i, &storagetypes.MsgDeleteFile{Creator: s.acc(i).Bech, Merkle: w.F.Root(), Start: w.Start})
 }
 
 // ---- reward-block observation
